@@ -174,7 +174,18 @@ func oneRound(seed int64, db *badger.DB, round int) {
 	)
 	s.Handle("g.$id", res.Group("grp.${id}"), res.GetCollection(func(r res.CollectionRequest) { touch(r.Group()); r.Collection([]int{1}) }))
 	s.Handle("sh.$id", res.Group("shared"), res.GetModel(func(r res.ModelRequest) { touch(r.Group()); r.NotFound() }))
-	s.Handle("par.$id", res.Parallel(true), res.GetModel(func(r res.ModelRequest) { r.NotFound() }))
+	s.Handle("par.$id", res.Parallel(true), res.GetModel(func(r res.ModelRequest) { r.NotFound() }),
+		// a parallel resource's query requests run concurrently; each sees its own query
+		res.Call("q", func(r res.CallRequest) {
+			r.QueryEvent(func(qr res.QueryRequest) {
+				if qr != nil {
+					q := qr.Query()
+					qr.ParseQuery()
+					qr.Collection([]string{q})
+				}
+			})
+			r.OK(nil)
+		}))
 	s.Handle("ms.$id", res.Model, store.Handler{Store: ms})
 	s.Handle("bs.$id", res.Model, store.Handler{Store: bs, Transformer: store.IDTransformer("id", nil)})
 	s.Handle("bsq", res.Collection, store.QueryHandler{QueryStore: qs, Transformer: store.IDToRIDCollectionTransformer(func(id string) string { return "test.bs." + id }),
@@ -233,6 +244,48 @@ func oneRound(seed int64, db *badger.DB, round int) {
 				subj = "auth." + n + ".a"
 			}
 			conn.deliver(inCh, &nats.Msg{Subject: subj, Reply: "inbox.x", Data: []byte(`{"cid":"c1"}`)})
+		}
+	})
+	// query requests on the subjects of the live query events (the gateway's side of a query event)
+	goer(func(r *rand.Rand) {
+		for i := 0; i < 200; i++ {
+			select {
+			case <-stop:
+				return
+			default:
+			}
+			conn.mu.Lock()
+			var qsubs []qsub
+			for _, sb := range conn.subs {
+				if strings.HasPrefix(sb.subject, "_INBOX.") {
+					qsubs = append(qsubs, sb)
+				}
+			}
+			conn.mu.Unlock()
+			if len(qsubs) == 0 {
+				time.Sleep(50 * time.Microsecond)
+				continue
+			}
+			// the most recent query events are the ones still listening
+			for back := 0; back < min(4, len(qsubs)); back++ {
+				sb := qsubs[len(qsubs)-1-back]
+				for k := 0; k < 4; k++ {
+					conn.deliver(sb.ch, &nats.Msg{Subject: sb.subject, Reply: "inbox.q", Data: []byte(fmt.Sprintf(`{"query":"q=%d"}`, i*4+k))})
+				}
+			}
+			time.Sleep(30 * time.Microsecond)
+		}
+	})
+	// query events on parallel resources, started all through the round
+	goer(func(r *rand.Rand) {
+		for i := 0; i < 25; i++ {
+			select {
+			case <-stop:
+				return
+			default:
+			}
+			conn.deliver(inCh, &nats.Msg{Subject: fmt.Sprintf("call.test.par.%d.q", 1+r.Intn(2)), Reply: "inbox.x", Data: []byte(`{"cid":"c1"}`)})
+			time.Sleep(time.Duration(100+r.Intn(300)) * time.Microsecond)
 		}
 	})
 	// With / WithResource / WithGroup from foreign goroutines
